@@ -550,6 +550,7 @@ static void env_setup(void)
     ubuf_sound_mem_mgr_add_plane(kind_mgr[K_F32P], "l");
     ubuf_sound_mem_mgr_add_plane(kind_mgr[K_F32P], "r");
     upump_mgr = upump_sim_mgr_alloc(depth[pool], depth[pool]);
+    upump_sim_mgr_set_horizon(upump_mgr, UINT64_C(27000000) * 3600);   /* an hour */
     uclock = uclock_sim_alloc();
     uprobe_init(&root, root_catch, NULL);
     urefcount_init(&root_refcount, noop_free);
